@@ -1181,6 +1181,9 @@ func c02ErrFlow(call ssa.CallInstruction, o ErrFlowOpts, depth int) ErrFlowResul
 	}
 	fn := call.Parent()
 	aliases := Aliases(e)
+	if c02AssignedToOuterResult(fn, aliases) {
+		return ErrFlowResult{OK: true, How: "assigned, in a deferred closure, to the enclosing function's error result"}
+	}
 	if _, _, ifs := NilTests(fn, aliases); len(ifs) > 0 {
 		return r // tested here: ErrFlow's verdict stands
 	}
@@ -1226,6 +1229,64 @@ func c02ErrFlow(call ssa.CallInstruction, o ErrFlowOpts, depth int) ErrFlowResul
 		r.Detail = detail
 	}
 	return r
+}
+
+// c02AssignedToOuterResult: fn is a closure deferred by its parent, and the
+// error (one of aliases) is stored into the parent's error result variable —
+// the variable every return of the parent yields — without being overwritten
+// afterwards: the parent returns it.
+func c02AssignedToOuterResult(fn *ssa.Function, aliases map[ssa.Value]bool) bool {
+	par := fn.Parent()
+	if par == nil || ErrResultIndex(fn.Signature) >= 0 {
+		return false
+	}
+	errIdx := ErrResultIndex(par.Signature)
+	if errIdx < 0 {
+		return false
+	}
+	var cell *ssa.Alloc
+	for _, r := range Returns(par) {
+		a := cellOf(r.Results[errIdx])
+		if a == nil || (cell != nil && a != cell) {
+			return false
+		}
+		cell = a
+	}
+	deferred := false
+	var fv *ssa.FreeVar
+	AllInstrs(par, func(in ssa.Instruction) {
+		d, ok := in.(*ssa.Defer)
+		if !ok {
+			return
+		}
+		if mc, ok := d.Call.Value.(*ssa.MakeClosure); ok && mc.Fn == fn {
+			deferred = true
+			for i, b := range mc.Bindings {
+				if b == ssa.Value(cell) {
+					fv = fn.FreeVars[i]
+				}
+			}
+		}
+	})
+	if !deferred || fv == nil || cell == nil {
+		return false
+	}
+	for _, ref := range *fv.Referrers() {
+		st, ok := ref.(*ssa.Store)
+		if !ok || st.Addr != ssa.Value(fv) || !(aliases[st.Val] || aliases[strip(st.Val)]) {
+			continue
+		}
+		overwritten := false
+		for _, ref2 := range *fv.Referrers() {
+			if st2, ok := ref2.(*ssa.Store); ok && st2 != st && st2.Addr == ssa.Value(fv) && Reachable(st, st2) {
+				overwritten = true
+			}
+		}
+		if !overwritten {
+			return true
+		}
+	}
+	return false
 }
 
 // c02CallSites: the calls of g in the functions of its package.
@@ -1429,8 +1490,54 @@ func (pa *c02PermitAnalysis) run(fn *ssa.Function, k int, entry c02Permit, depth
 	defer delete(pa.visiting, key)
 	pa.Analysed[fn] = true
 
-	R := Aliases(fn.Params[k])
+	// the region as fn sees it: parameter k, or (k < 0, a deferred closure)
+	// the loads of the captured variable -(k+1)
+	R := map[ssa.Value]bool{}
+	if k >= 0 {
+		R = Aliases(fn.Params[k])
+	} else {
+		for _, ref := range *fn.FreeVars[-(k + 1)].Referrers() {
+			if ld, ok := ref.(*ssa.UnOp); ok && ld.Op == token.MUL {
+				for a := range Aliases(ld) {
+					R[a] = true
+				}
+			}
+		}
+	}
 	isRegion := func(v ssa.Value) bool { return c02RootedIn(v, R) }
+	// deferred closures of fn that captured the region: they run at RunDefers
+	type deferredRegion struct {
+		g *ssa.Function
+		k int
+	}
+	var deferredClosures []deferredRegion
+	handled := map[*ssa.MakeClosure]bool{}
+	AllInstrs(fn, func(ins ssa.Instruction) {
+		d, ok := ins.(*ssa.Defer)
+		if !ok {
+			return
+		}
+		mc, ok := d.Call.Value.(*ssa.MakeClosure)
+		if !ok {
+			return
+		}
+		for j, bnd := range mc.Bindings {
+			a, isAlloc := bnd.(*ssa.Alloc)
+			if !isAlloc || !isPtrToRegion(a.Type().(*types.Pointer).Elem()) {
+				continue
+			}
+			holds := false
+			for _, st := range storesTo(a) {
+				if isRegion(st.Val) {
+					holds = true
+				}
+			}
+			if holds && !freeVarWritten(mc.Fn.(*ssa.Function), mc.Fn.(*ssa.Function).FreeVars[j]) {
+				deferredClosures = append(deferredClosures, deferredRegion{mc.Fn.(*ssa.Function), -(j + 1)})
+				handled[mc] = true
+			}
+		}
+	})
 
 	effects := map[ssa.Instruction]bool{}
 	for _, p := range storageEffects(fn) {
@@ -1533,6 +1640,13 @@ func (pa *c02PermitAnalysis) run(fn *ssa.Function, k int, entry c02Permit, depth
 				st.s = ps.exitNil
 			}
 		}
+		if _, ok := ins.(*ssa.RunDefers); ok {
+			for i := len(deferredClosures) - 1; i >= 0; i-- {
+				dc := deferredClosures[i]
+				ps := pa.run(dc.g, dc.k, c02Permit{s: st.s, touched: st.touched}, depth+1)
+				*st = c02Permit{s: ps.exitAny, touched: true}
+			}
+		}
 		if r, ok := ins.(*ssa.Return); ok {
 			sum.exitAny = c02Join(c02Permit{s: sum.exitAny}, c02Permit{s: st.s}).s
 			s, nilable := st.s, true
@@ -1588,7 +1702,7 @@ func (pa *c02PermitAnalysis) run(fn *ssa.Function, k int, entry c02Permit, depth
 	// a closure that captures the region and ends/starts it is out of reach
 	AllInstrs(fn, func(ins ssa.Instruction) {
 		mc, ok := ins.(*ssa.MakeClosure)
-		if !ok {
+		if !ok || handled[mc] {
 			return
 		}
 		for _, bnd := range mc.Bindings {
@@ -2073,4 +2187,111 @@ func c02MustPassPS(fn *ssa.Function, target ssa.Instruction, ct *cut, okErrs map
 	}
 	ex.run(c02Permit{})
 	return !found, ex.exceeded
+}
+
+// c02SentinelNames names the sentinel error(s) v denotes (as sentinelName
+// does), also through a captured variable.
+func c02SentinelNames(v ssa.Value, depth int) []string {
+	if depth > 3 {
+		return nil
+	}
+	if n := sentinelName(v); n != "" {
+		return []string{n}
+	}
+	var out []string
+	for _, r := range Roots(v) {
+		if u, ok := r.(*ssa.UnOp); ok && u.Op == token.MUL {
+			if fv, ok := u.X.(*ssa.FreeVar); ok {
+				for _, val := range c02CellValues(fv, 0) {
+					out = append(out, c02SentinelNames(val, depth+1)...)
+				}
+			}
+		}
+	}
+	return out
+}
+
+// c02CallbackSentinels: the sentinel errors that a function-typed argument of
+// the call (a closure created in the caller) can return.
+func c02CallbackSentinels(call ssa.CallInstruction) []string {
+	var out []string
+	seen := map[string]bool{}
+	for _, a := range call.Common().Args {
+		if _, ok := a.Type().Underlying().(*types.Signature); !ok {
+			continue
+		}
+		for _, t := range c02FuncTargets(a, 0) {
+			idx := ErrResultIndex(t.Fn.Signature)
+			if idx < 0 || len(t.Fn.Blocks) == 0 {
+				continue
+			}
+			for _, at := range RetAtoms(t.Fn, idx) {
+				if _, isCall := at.Val.(*ssa.Call); isCall {
+					if CalleeName(at.Val.(*ssa.Call)) != "errors.New" {
+						continue
+					}
+				}
+				for _, n := range c02SentinelNames(at.Val, 0) {
+					if !seen[n] {
+						seen[n] = true
+						out = append(out, n)
+					}
+				}
+			}
+		}
+	}
+	return out
+}
+
+// c02StartsOnSuccess: every nil-error return of h lies behind a successful
+// region.Start() (h returns Start's error, or returns after its nil edge).
+func c02StartsOnSuccess(h *ssa.Function) bool {
+	starts := CallsTo(h, nStart)
+	if len(starts) == 0 || ErrResultIndex(h.Signature) < 0 {
+		return false
+	}
+	ct := newCut()
+	isStartErr := map[ssa.Value]bool{}
+	for _, st := range starts {
+		if e := ErrOf(st); e != nil {
+			ma := c02MustAliases(e)
+			ne, _, _ := NilTests(h, ma)
+			ct.Edges(ne...)
+			for a := range ma {
+				isStartErr[a] = true
+			}
+		}
+	}
+	for _, a := range c02NilableAtoms(h) {
+		if isStartErr[a.Val] || isStartErr[strip(a.Val)] {
+			continue
+		}
+		if !AtomMustPass(a, ct) {
+			return false
+		}
+	}
+	return true
+}
+
+// c02AcquireEdges: the edges of G on which a permit has been acquired.
+func c02AcquireEdges(G *ssa.Function) []Edge {
+	var out []Edge
+	for _, call := range Calls(G, func(string) bool { return true }) {
+		if _, isDefer := call.(*ssa.Defer); isDefer {
+			continue
+		}
+		ok := CalleeName(call) == nStart
+		if !ok {
+			if h, _ := c02CalleeOf(call); h != nil && h != G && c02StartsOnSuccess(h) {
+				ok = true
+			}
+		}
+		if ok {
+			if e := ErrOf(call); e != nil {
+				ne, _, _ := NilTests(G, c02MustAliases(e))
+				out = append(out, ne...)
+			}
+		}
+	}
+	return out
 }
